@@ -73,6 +73,12 @@ def main():
             o.setdefault("function", "contracts")
             o.setdefault("norm", o["name"])
             extra.append(o)
+    selftest = {}
+    if tier == "thorough":
+        selftest = PM.thorough_extras(pid)
+        for name, ok, detail in selftest.get("assumption_checks", []):
+            extra.append({"name": name, "norm": name, "status": "discharged" if ok else "failed", "backend": "cpython-enumeration",
+                          "secs": 0.0, "tags": [pid], "kind": "lemma", "detail": detail, "function": "assumptions"})
     obls += extra
     # canaries: deliberately false clauses must NOT verify
     canaries = {}
@@ -179,6 +185,10 @@ def main():
     if vacuous and rc == 0:
         out_lines.append("CHECKER-ERROR canary verified: %s" % ", ".join(vacuous))
         rc = 3
+    survived = [m for m, st in selftest.get("mutants", {}).items() if st not in ("KILLED", "KILLED-other")]
+    if survived and rc == 0:
+        out_lines.append("CHECKER-ERROR seeded mutants not killed (contract too weak or engine unsound): %s" % ", ".join(survived))
+        rc = 3
     wall = time.time() - t0
     backends = {}
     for o in discharged:
@@ -203,6 +213,8 @@ def main():
                         for o in (failed[:2] + [x for x in discharged if x.get("smt")][:3] + discharged[:2])],
             "solver_time_s": round(sum(o["secs"] for o in obls), 2),
             "canaries": canaries,
+            "selftest_mutants": selftest.get("mutants", {}),
+            "findings_native": selftest.get("findings_native", {}),
             "known_findings": sorted(printed_known),
             "conditioned_on": sorted(set(spec.get("conditioned_on", [])) | printed_known),
             "discharged_under_negated_witness": sorted(set(o["norm"] + " [" + o["status"][6:] + "]" for o in conditioned)),
